@@ -177,3 +177,72 @@ def run(ctx, modes, nplans, content_monitor=True, results_monitor=True, big=Fals
                      sample={"population": "interleaved writers", "plan": describe(plan)[:400]} if pi % 40 == 0 else None)
         ctx.count("interleaved_plans")
         ctx.rm(cache)
+
+
+def cancelled_writes(ctx, modes, n):
+    """Async writers on which a write future is dropped while pending (a timeout or select! that lost) and which are
+    then used further: what ends up stored is not specified (the cancelled bytes may or may not be part of it), but
+    whatever commit() returns must name a content file that matches its address, nothing in the content area may be
+    invalid, and nothing may panic."""
+    rng = ctx.rng
+    amodes = [m for m in modes if m.startswith("async")]
+    for i in range(n):
+        mode = amodes[i % len(amodes)]
+        cache = ctx.new_cache()
+        ln = rng.choice([1, 7, 300, 4097, 70000])
+        data = rng.randbytes(ln)
+        _, lens = gen.chunking(rng, ln)
+        chunks = gen.split(data, lens) or [b""]
+        # content that is already stored and must survive, sometimes equal to what the writer is given
+        prior = data if rng.random() < 0.3 else rng.randbytes(rng.choice([5, 3000]))
+        pr = ctx.call("sync@astd", {"op": "write", "cache": cache, "key": "stored-before", "data": ctx.data(prior)})
+        ncancel = rng.choice([1, 1, 2])
+        cancels = [[rng.randrange(len(chunks)), ctx.data(rng.randbytes(rng.choice([1, 50, 5000, 200000, 3 * gen.MIB])))]
+                   for _ in range(ncancel)]
+        opts = {}
+        r = rng.random()
+        if r < 0.3:
+            opts["size"] = ln
+        elif r < 0.4:
+            opts["sri"] = ref.sri("sha256", data)
+        req = {"op": "writer", "cache": cache, "opts": opts, "chunks": [ctx.data(c) for c in chunks],
+               "cancel_before": cancels, "use_write_all": rng.random() < 0.6,
+               "final": rng.choice(["commit", "commit", "commit", "drop", "close_commit"])}
+        if rng.random() < 0.6:
+            req["key"] = "k"
+        w = ctx.call(mode, req, timeout=60)
+        ctx.count("writers_with_cancelled_writes")
+        cls = ("cancelled-write", mode, "declared" if opts else "plain", req["final"], ev.variant(w))
+        ctx.case(distinct_key=cls, sample={"population": "cancelled writes", "mode": mode, "len": ln, "chunks": lens[:6],
+                                           "cancelled_lens": [len(drv_bytes(c[1])) for c in cancels],
+                                           "result": ev.variant(w)} if i % 50 == 0 else None)
+        det = {"steps": [[mode, req]], "response": w}
+        if ev.is_panic(w) or ev.is_hang(w) or "died" in w:
+            ctx.violation(f"cancelled-write|{mode}|{ev.variant(w)}",
+                          f"writer used after a cancelled write ({mode}): {ev.brief(w)}", det)
+            continue
+        probs = ref.check_content_tree(cache)
+        ctx.count("content_area_inspections")
+        if probs:
+            ctx.violation(f"cancelled-write|content-area|{mode}|{'declared' if opts else 'plain'}",
+                          f"after a writer with a cancelled write ({mode}, final {req['final']}, result {ev.variant(w)}): {probs[0]}", det)
+            continue
+        if ev.is_ok(w) and w["ok"].get("sri"):
+            rd = ctx.call(mode, {"op": "read_hash", "cache": cache, "sri": w["ok"]["sri"]})
+            if not ev.is_ok(rd):
+                ctx.violation(f"cancelled-write|returned-address-unreadable|{mode}",
+                              f"commit after a cancelled write returned {w['ok']['sri'][:30]} but read_hash gives {ev.brief(rd)}", det)
+        if ev.is_ok(pr):
+            rd = ctx.call("sync@astd", {"op": "read", "cache": cache, "key": "stored-before"})
+            if not ev.is_ok(rd) or ev_data(rd) != prior:
+                ctx.violation(f"cancelled-write|stored-content-lost|{mode}",
+                              f"content stored before a writer with a cancelled write is no longer readable: {ev.brief(rd)}", det)
+        ctx.rm(cache)
+
+
+def drv_bytes(d):
+    from . import drv
+    try:
+        return drv.data_bytes(d)
+    except Exception:
+        return b""
